@@ -89,7 +89,13 @@ def _create_consumer(ctx, consumer_uuid, project, user, consumer_type_id):
     except exception.ConsumerExists:
         # Another thread created this consumer already, verify whether
         # the consumer type matches
-        consumer = consumer_obj.Consumer.get_by_uuid(ctx, consumer_uuid)
+        try:
+            consumer = consumer_obj.Consumer.get_by_uuid(ctx, consumer_uuid)
+        except exception.NotFound:
+            # The request that created the consumer has failed and removed
+            # it again in the meantime: start over.
+            return _create_consumer(
+                ctx, consumer_uuid, project, user, consumer_type_id)
         # If the types don't match, update the consumer record
         if consumer_type_id != consumer.consumer_type_id:
             LOG.debug("Supplied consumer type for consumer %s was "
